@@ -36,7 +36,15 @@ def main():
     cmd = meta.get('demo_build', '')
     std = re.search(r'-std=\S+', cmd)
     cxx = 'clang++' if 'clang++' in cmd.split()[0:1] else 'g++'
-    flags = ' '.join([std.group(0) if std else '-std=c++17'] + [t for t in cmd.split() if t.startswith(('-D', '-O', '-f', '-W')) and 'sanitize' not in t or t.startswith('-fsanitize')])
+    toks = []
+    for t in cmd.split():
+        t = t.rstrip(').,;')
+        if (t.startswith(('-D', '-O', '-f', '-W')) and 'sanitize' not in t or t.startswith('-fsanitize')) and re.fullmatch(r'-[A-Za-z][\w=,+-]*', t) and t not in toks:
+            toks.append(t)
+    # only the first optimisation level counts (later ones come from prose in the agent's description)
+    opt = [t for t in toks if re.fullmatch(r'-O\w?', t)]
+    toks = [t for t in toks if t not in opt[1:]]
+    flags = ' '.join([std.group(0).rstrip(').,;') if std else '-std=c++17'] + toks)
     res = {}
     for tag, inc in (('original', os.path.join(pristine, 'source/include')), ('patched', os.path.join(wt, 'source/include'))):
         exe = '/tmp/seedwt/_demo_%s_%s' % (name, tag)
